@@ -64,8 +64,9 @@ fn settle<S: SubLike>(
     last_value: Option<u64>,
     who: &str,
 ) -> V {
-    let (r, flag) = first.lock().unwrap().take().expect("poll role did not run");
-    let mut s = sub.lock().unwrap().take().unwrap();
+    // (a role that did not run to its end - only possible in a stuck run - leaves nothing to judge)
+    let Some((r, flag)) = first.lock().unwrap().take() else { return Ok(()) };
+    let Some(mut s) = sub.lock().unwrap().take() else { return Ok(()) };
     let mut seen: Vec<Option<u64>> = vec![];
     match r {
         Poll::Ready(x) => seen.push(x),
@@ -146,6 +147,8 @@ pub enum Scen {
     ReadGuardVsSet,
     /// a write guard held across pause points (with a set through it) || get || subscriber poll
     WriteGuardVsGetAndPoll,
+    /// the last clone is dropped while two other threads upgrade the same weak reference
+    DropVsTwoUpgrades,
 }
 
 pub const C04_GUARD_SCENS: &[Scen] = &[Scen::ReadGuardVsSet, Scen::WriteGuardVsGetAndPoll];
@@ -168,6 +171,7 @@ pub const C03_SCENS: &[Scen] = &[
     Scen::ThreeClonesDropped,
     Scen::DropUpgradePoll,
     Scen::IntoSharedVsPoll,
+    Scen::DropVsTwoUpgrades,
     // the close racing with a poll: the stream must still end (the wake-up side of these is C02's)
     Scen::PollCloseShared,
     Scen::PollCloseUnique,
@@ -339,8 +343,9 @@ fn run_scen(sc: Scen, prefix: &[usize]) -> (SchedRun, V) {
                 prefix,
                 t_block(),
             );
-            let (t1, t2, v1, v2) = hold.lock().unwrap().take().unwrap();
-            let (inv, res, prev) = wr.lock().unwrap().take().unwrap();
+            let (Some((t1, t2, v1, v2)), Some((inv, res, prev))) = (hold.lock().unwrap().take(), wr.lock().unwrap().take()) else {
+                return (run, Ok(())); // a role did not finish (stuck run): nothing to judge
+            };
             let v = if v1 != v2 {
                 bad("C04", format!("the value changed while a read guard was alive: {v1} -> {v2}"))
             } else if inv > t1 && res < t2 {
@@ -385,8 +390,9 @@ fn run_scen(sc: Scen, prefix: &[usize]) -> (SchedRun, V) {
                 prefix,
                 t_block(),
             );
-            let (t1, t2) = hold.lock().unwrap().take().unwrap();
-            let (inv, rres, v) = rd.lock().unwrap().take().unwrap();
+            let (Some((t1, t2)), Some((inv, rres, v))) = (hold.lock().unwrap().take(), rd.lock().unwrap().take()) else {
+                return (run, Ok(()));
+            };
             let mut verdict = if inv > t1 && rres < t2 {
                 bad("C04", format!("a get was invoked and completed (clock {inv}..{rres}) entirely while a write guard was alive (clock {t1}..{t2})"))
             } else if inv > t1 && v != 5 {
@@ -445,6 +451,63 @@ fn run_scen(sc: Scen, prefix: &[usize]) -> (SchedRun, V) {
             );
             let v = settle(&sub, &res, false, true, Some(1), "poll || into_shared, then set");
             drop(shared);
+            (run, v)
+        }
+        Scen::DropVsTwoUpgrades => {
+            let ob = SharedObservable::new(0u64);
+            let weak = ob.downgrade();
+            let weak2 = weak.clone();
+            let mut s = ob.subscribe();
+            let first = poll_stream_once(&mut s);
+            let sub = slot_with(s);
+            let res = slot_with(first);
+            let h1: Slot<SharedObservable<u64>> = slot();
+            let h2: Slot<SharedObservable<u64>> = slot();
+            let (a, b) = (h1.clone(), h2.clone());
+            let run = run_schedule(
+                vec![
+                    Box::new(move || drop(ob)),
+                    Box::new(move || {
+                        if let Some(h) = weak.upgrade() {
+                            h.set(7);
+                            *a.lock().unwrap() = Some(h);
+                        }
+                    }),
+                    Box::new(move || {
+                        if let Some(h) = weak2.upgrade() {
+                            *b.lock().unwrap() = Some(h);
+                        }
+                    }),
+                ],
+                prefix,
+                t_block(),
+            );
+            let up1 = h1.lock().unwrap().take();
+            let up2 = h2.lock().unwrap().take();
+            let who = "drop of the last clone || upgrade (then set) || upgrade";
+            let alive = up1.is_some() as usize + up2.is_some() as usize;
+            let mut v = if up1.is_some() {
+                settle(&sub, &res, false, true, Some(7), who)
+            } else if up2.is_some() {
+                settle(&sub, &res, false, true, None, who)
+            } else {
+                settle(&sub, &res, true, false, None, who)
+            };
+            if v.is_ok() && alive > 0 {
+                for h in [&up1, &up2].into_iter().flatten() {
+                    if h.observable_count() != alive {
+                        v = bad("C19", format!("{who}: an upgraded handle reports observable_count = {}, {alive} handle(s) exist", h.observable_count()));
+                    }
+                }
+                drop(up1);
+                drop(up2);
+                if let Some(mut s) = sub.lock().unwrap().take() {
+                    let (r, _f) = poll_stream_once(&mut s);
+                    if v.is_ok() && r != Poll::Ready(None) {
+                        v = bad("C03", format!("{who}: after the upgraded handles were dropped too the subscriber answers {r:?}"));
+                    }
+                }
+            }
             (run, v)
         }
         Scen::TwoLastClonesDropped => {
@@ -509,12 +572,12 @@ fn run_scen(sc: Scen, prefix: &[usize]) -> (SchedRun, V) {
                 settle(&sub, &res, true, false, None, who)
             };
             if v.is_ok() && upgraded {
-                let h = handle.lock().unwrap().take().unwrap();
+                let Some(h) = handle.lock().unwrap().take() else { return (run, Ok(())) };
                 if h.observable_count() != 1 {
                     v = bad("C19", format!("{who}: the upgraded handle reports observable_count = {}", h.observable_count()));
                 }
                 drop(h);
-                let mut s = sub.lock().unwrap().take().unwrap();
+                let Some(mut s) = sub.lock().unwrap().take() else { return (run, v) };
                 let (r, _f) = poll_stream_once(&mut s);
                 if v.is_ok() && r != Poll::Ready(None) {
                     v = bad("C03", format!("{who}: after the upgraded handle was dropped too the subscriber answers {r:?}"));
@@ -576,6 +639,11 @@ fn free_round_c02(seed: u64, pm: u64) -> Result<(u64, u64, u64), (&'static str, 
     let n_writers = if unique { 1 } else { rng.range(1, 2) };
     let sets = if small() { rng.range(1, 4) } else { rng.range(1, 12) };
     let quiesce = Arc::new(Quiesce(AtomicBool::new(false)));
+    // in half of the shared rounds one owner outlives the writers: a subscriber that is Pending and
+    // unwoken after the last update completed must then really have nothing new (update-side lost
+    // wake-ups would otherwise be repaired by the wake-up of the close)
+    let hold_owner = !unique && rng.chance(1, 2);
+    let writers_done = Arc::new(Quiesce(AtomicBool::new(false)));
     let uniq_ob = if unique { Some(Observable::new(0u64)) } else { None };
     let shared_ob = if unique { None } else { Some(SharedObservable::new(0u64)) };
     let mut subs = vec![];
@@ -589,6 +657,7 @@ fn free_round_c02(seed: u64, pm: u64) -> Result<(u64, u64, u64), (&'static str, 
     let mut sub_threads = vec![];
     for (k, mut s) in subs.into_iter().enumerate() {
         let q = quiesce.clone();
+        let wd = writers_done.clone();
         let sseed = mix(seed, 100 + k as u64);
         sub_threads.push(std::thread::spawn(move || -> Result<(u64, u64, u64), (&'static str, String)> {
             set_free_mode(sseed, pm);
@@ -608,10 +677,27 @@ fn free_round_c02(seed: u64, pm: u64) -> Result<(u64, u64, u64), (&'static str, 
                     Poll::Ready(None) => break,
                     Poll::Pending => {
                         pend += 1;
+                        let mut flag = flag;
+                        let mut checked = false;
                         loop {
                             if flag.woken() {
                                 wakes += 1;
                                 break;
+                            }
+                            if !checked && wd.get() && !flag.woken() {
+                                // every update has completed and an owner is still alive: this Pending
+                                // poll was not woken, so it must have come after the last update
+                                checked = true;
+                                let (f2, w2) = pause_waker(true);
+                                let mut cx2 = Context::from_waker(&w2);
+                                match std::pin::Pin::new(&mut s).poll_next(&mut cx2) {
+                                    Poll::Ready(Some(v)) => {
+                                        return bad("C02", format!("subscriber {k}: lost wakeup - Pending and never woken although an update (value {v}) it had not observed was stored before the writers finished"));
+                                    }
+                                    Poll::Ready(None) => break,
+                                    Poll::Pending => flag = f2,
+                                }
+                                continue;
                             }
                             if q.get() {
                                 if flag.woken() {
@@ -664,7 +750,14 @@ fn free_round_c02(seed: u64, pm: u64) -> Result<(u64, u64, u64), (&'static str, 
             }));
         }
         // the main handle goes last or first, at random
-        if rng.chance(1, 2) {
+        if hold_owner {
+            for w in writers.drain(..) {
+                w.join().map_err(|_| ("C02", "writer thread panicked".to_string()))?;
+            }
+            writers_done.set();
+            std::thread::sleep(Duration::from_micros(300));
+            drop(ob);
+        } else if rng.chance(1, 2) {
             drop(ob);
         } else {
             let wseed = mix(seed, 99);
@@ -804,7 +897,7 @@ pub fn run_free_c02(prop: &str, p: &Params, n: u64) -> Outcome {
                     }
                 }
             }
-            Err((vp, what)) if vp == "STUCK" => {
+            Err((vp, what)) if vp == "STUCK" || STUCK_SEEN.load(AO::SeqCst) => {
                 if out.inconclusive.len() < 3 {
                     out.inconclusive.push(format!("free-running round {s}: {what}"))
                 }
@@ -1486,7 +1579,7 @@ fn round_w3(seed: u64, pm: u64) -> Result<(usize, usize), String> {
 /// Drives a future on the calling thread, parking between polls. A future that is neither ready nor
 /// woken for 8 s of wall-clock time is reported as STUCK - which is an INCONCLUSIVE outcome for the
 /// round (a deadline is never a verdict), but it must not hang the whole check.
-static STUCK_SEEN: AtomicBool = AtomicBool::new(false);
+use crate::engine_thr::ASYNC_STUCK as STUCK_SEEN;
 
 fn try_block_on_park<F: Future>(f: F) -> Result<F::Output, String> {
     if STUCK_SEEN.load(AO::SeqCst) {
@@ -1665,7 +1758,7 @@ pub fn run_rounds(
                     out.ev.sample(json!({"workload": gen_name, "round_seed": s, "threads": threads, "recorded_events": events, "yield_per_mille": pm}));
                 }
             }
-            Err(what) if what.starts_with("STUCK") => {
+            Err(what) if what.starts_with("STUCK") || STUCK_SEEN.load(AO::SeqCst) => {
                 if out.inconclusive.len() < 3 {
                     out.inconclusive.push(format!("round {gen_name} {s}: {what}"))
                 }
@@ -1743,7 +1836,7 @@ pub fn run_c03(p: &Params) -> Outcome {
 pub fn run_c04(p: &Params) -> Outcome {
     let mut out = Outcome::default();
     // the lock-exclusion invariant is evaluated by the director in every scenario
-    let all: Vec<Scen> = C04_GUARD_SCENS.iter().chain(C02_SCENS.iter()).chain(C03_SCENS[..5].iter()).copied().collect();
+    let all: Vec<Scen> = C04_GUARD_SCENS.iter().chain(C02_SCENS.iter()).chain(C03_SCENS[..6].iter()).copied().collect();
     out.merge(run_directed("C04", &all, p, sched_budget(p, 200, 1500)));
     out.merge(run_rounds("C04", p, "w1-register", p.n(1_500, 60_000), round_w1));
     out.merge(run_rounds("C04", p, "w2-append-list", p.n(800, 30_000), round_w2));
